@@ -1,6 +1,76 @@
-From Coq Require Import List NArith ZArith Bool.
+(** C07 — property theorems about the model of the (repaired) joiner.
+    [stored get cs refLen j data]: the joiner [j] sits on a well-formed stored
+    tree (the Aurora format: leaves of at most [cs] bytes, intermediate chunks
+    of 2..cs/refLen references whose non-last children cover cs*(cs/refLen)^m
+    bytes) for the content [data], shorter than 2^63 bytes; every chunk is
+    obtained through the getter [get].  All statements are for every getter,
+    every chunk size and reference length with cs/refLen >= 2. *)
+From Coq Require Import List NArith ZArith Bool Lia.
 Import ListNotations.
-Require Import Aurora.Consts Aurora.C02.Model Aurora.C07.Model Aurora.C07.Proofs.
-Theorem C07_wip : forall r, rd_app rd_empty r = r.
-Proof. exact rd_app_empty_l. Qed.
-Print Assumptions C07_wip.
+Require Import Aurora.Consts Aurora.C02.Model Aurora.C07.Model Aurora.C07.Slices Aurora.C07.Proofs Aurora.C07.Main.
+Local Open Scope Z_scope.
+
+Lemma consts_ok_C07 : consts_ok_C07_b = true.
+Proof. vm_compute. reflexivity. Qed.
+
+(** Size() is the content length *)
+Theorem C07_size : forall get cs refLen j data, params_ok cs refLen -> stored get cs refLen j data ->
+  j_span j = len data.
+Proof. exact size_is_length. Qed.
+Print Assumptions C07_size.
+
+(** ReadAt(buffer, off), len(buffer) = blen <= cap(buffer) = bcap, off >= 0, [buf] the
+    buffer contents up to the capacity before the call:
+    - at or past the end: (0, EOF), nothing written;
+    - otherwise: returns exactly n = min(blen, size - off) <= blen with a nil error, the
+      first n bytes of the buffer are content[off, off+n) and every other byte of the
+      buffer — in particular everything at index >= len(buffer) — is unchanged. *)
+Theorem C07_read_at_contract : forall get cs refLen j data, params_ok cs refLen -> stored get cs refLen j data ->
+  forall blen bcap off (buf : bytes), 0 <= off -> 0 <= blen <= bcap -> len buf = bcap ->
+  (len data <= off -> read_at get cs refLen j blen bcap off = (0, [], REOF))
+  /\ (off < len data ->
+      let n := Z.min blen (len data - off) in
+      exists ws, read_at get cs refLen j blen bcap off = (n, ws, RNil)
+        /\ 0 <= n <= blen
+        /\ apply_writes buf ws = slice data off n ++ skipn (Z.to_nat n) buf).
+Proof. exact read_at_contract. Qed.
+Print Assumptions C07_read_at_contract.
+
+(** any sequence of Read calls from a position inside the file: every call returns its
+    byte count with nil or (0, EOF); the concatenation of what was returned is exactly
+    the content between the first and the final position (nothing skipped or repeated) *)
+Theorem C07_sequential : forall get cs refLen j data, params_ok cs refLen -> stored get cs refLen j data ->
+  0 <= j_off j <= len data ->
+  forall bufs, Forall (fun bc => 0 <= fst bc <= snd bc) bufs ->
+  let '(j', rs) := reads get cs refLen j bufs in
+  j_span j' = j_span j /\ j_root j' = j_root j
+  /\ j_off j <= j_off j' <= len data
+  /\ concat (map res_content rs) = slice data (j_off j) (j_off j' - j_off j)
+  /\ Forall res_ok rs.
+Proof. exact sequential_reads. Qed.
+Print Assumptions C07_sequential.
+
+(** Seek(offset, whence) for every int64 offset and every whence: either an error and the
+    joiner is unchanged, or whence is 0, 1 or 2, the new position is the requested one
+    computed without wrap-around (offset | position+offset | size-offset) and lies in [0, size] *)
+Theorem C07_seek : forall get cs refLen j data, params_ok cs refLen -> stored get cs refLen j data ->
+  0 <= j_off j <= len data ->
+  forall offset whence, - 2 ^ 63 <= offset < 2 ^ 63 ->
+  let '(j', (p, e)) := seek j offset whence in
+  (e <> SNil /\ j' = j /\ p = 0)
+  \/ (e = SNil /\ 0 <= whence <= 2 /\ p = requested j data offset whence /\ 0 <= p <= len data
+      /\ j' = mkJ (j_span j) (j_root j) p).
+Proof. exact seek_contract. Qed.
+Print Assumptions C07_seek.
+
+(** the parameters of the Go source (256 KiB chunks, 32-byte references) satisfy the hypotheses *)
+Theorem C07_source_params : params_ok Consts.boson_ChunkSize Consts.boson_HashSize.
+Proof. exact (source_params consts_ok_C07). Qed.
+Print Assumptions C07_source_params.
+
+(** non-vacuity: a concrete three-chunk file with a carried-over last leaf is [stored],
+    and the model read on it crosses both chunk boundaries *)
+Example C07_hyps_satisfiable : (params_ok 4 2 /\ stored ex_get 4 2 ex_j ex_data)
+  /\ (let '(n, ws, e) := read_at ex_get 4 2 ex_j 5 8 3 in
+      n = 5 /\ e = RNil /\ apply_writes (repeat 238%N 8) ws = [4;5;6;7;8;238;238;238]%N).
+Proof. exact (conj ex_stored ex_read). Qed.
